@@ -6,8 +6,9 @@ import Chiritori.Spec.Holds
   Full statement: `Statement` (tokenizer = textbook scan on kinds and values, for all sources and all
   non-empty delimiters).  It is FALSE of the current code for every multi-character delimiter
   (known finding D4): `c08_negation_D4` proves the negation on concrete witnesses.
-  Proved so far: the witnesses of the negation; the partial theorems (single-character delimiters: all
-  sources; any delimiters: WellDelimited sources) are stated in Props/C08Partial.lean.
+  Proved: the negation on witnesses (here); in Props/C08Partial.lean the whole region where the property
+  holds: `c08_single_char` (single-character delimiters, every source) and `c08_wellDelimited_partial`
+  (any delimiters, well-delimited sources).
 -/
 namespace Chiritori.Props.C08
 open Chiritori Chiritori.Spec
